@@ -136,13 +136,13 @@ func (f *lpFormat) nearest(a float64) (want float64, infOK, satOK bool, class st
 }
 
 type c20Viol struct {
-	Format string  `json:"format"`
-	Clause string  `json:"clause"`
-	X      string  `json:"x_bits,omitempty"`
-	XVal   string  `json:"x,omitempty"`
-	Code   string  `json:"code,omitempty"`
-	Got    string  `json:"got,omitempty"`
-	Want   string  `json:"want,omitempty"`
+	Format string `json:"format"`
+	Clause string `json:"clause"`
+	X      string `json:"x_bits,omitempty"`
+	XVal   string `json:"x,omitempty"`
+	Code   string `json:"code,omitempty"`
+	Got    string `json:"got,omitempty"`
+	Want   string `json:"want,omitempty"`
 }
 
 func f32s(v float32) string { return fmt.Sprintf("%g(0x%08x)", v, math.Float32bits(v)) }
